@@ -32,6 +32,8 @@ ORDER = {
 }
 ALL = ["C%02d" % i for i in range(1, 21)]
 
+EXTRA = "--extra" in sys.argv
+ONLY_EXTRA = EXTRA
 LEN_CONSTS = ["FIXED_HEADER_LEN", "PROTOCOL_LEN", "FRAG_ID_LEN", "TOTAL_LENGTH_LEN", "CRC_LEN", "FIRST_FRAG_LEN"]
 BIG_CONSTS = ["GSE_LEN_MAX", "TOTAL_LEN_MAX"]
 
@@ -127,6 +129,37 @@ def mutants_of(path, text):
         if st.endswith(";") and not st.startswith(("let ", "return", "pub ", "const ", "static ", "break", "continue", "}")) and "{" not in st:
             if re.match(r"(self\.[\w.]+\s*(=|\+=|-=)|[\w.]+\s*(\+=|-=)|\w+\s*=\s|self\.[\w.]+\(|[\w\[\].]+\.copy_from_slice\()", st):
                 add("del", l[:len(l) - len(l.lstrip())] + "/* deleted */")
+        if EXTRA:
+            out_before = len(out)
+            # identifiers that are easily confused
+            for a, b in (("pkt_len", "buffer_len"), ("buffer_len", "pkt_len"), ("gse_len", "pkt_len"), ("pdu_len_remaining", "pdu_len"),
+                         ("label_len", "first_label_len"), ("total_len", "pdu_len"), ("offset", "pkt_len")):
+                for m in re.finditer(r"(?<![\w.])" + a + r"\b(?!\s*[:=][^=])", code):
+                    if re.match(r"\s*let\s", code) and m.start() < code.find("="):
+                        continue
+                    add("ident %s->%s" % (a, b), l[:m.start()] + b + l[m.end():])
+            # error values
+            for fam, vs in (("DecapError", ["ErrorSizeBuffer", "ErrorTotalLength", "ErrorGseLength", "ErrorSizePduBuffer", "ErrorProtocolType",
+                                            "ErrorCrc", "ErrorInvalidLabel", "ErrorNoLabelSaved", "ErrorUnkownMandatoryHeader"]),
+                            ("EncapError", ["ErrorPduLength", "ErrorSizeBuffer", "ErrorProtocolType", "ErrorInvalidLabel"]),
+                            ("DecapMemoryError", ["StorageUnderflow", "UndefinedId", "MemoryCorrupted"])):
+                for m in re.finditer(fam + r"::(\w+)\b(?!\()", code):
+                    if m.group(1) in vs and "=>" not in code[:m.start()]:
+                        nv = vs[(vs.index(m.group(1)) + 1) % len(vs)]
+                        add("err %s->%s" % (m.group(1), nv), l[:m.start(1)] + nv + l[m.end(1):])
+            # give-back removed: the storage is dropped instead of being handed back to the memory
+            m = re.search(r"self\.memory\.provision_storage\((\w+)\)", code)
+            if m:
+                add("giveback dropped", l[:m.start()] + "{ drop(%s); Ok::<(), DecapMemoryError>(()) }" % m.group(1) + l[m.end():])
+            for a, b in (("true", "false"), ("false", "true"), (".min(", ".max("), (".max(", ".min("), ("cmp::min(", "cmp::max("), ("cmp::max(", "cmp::min(")):
+                for m in re.finditer(r"(?<![\w])" + re.escape(a), code):
+                    add("swap %s->%s" % (a, b), l[:m.start()] + b + l[m.end():])
+            # a whole `return Err(..)` guard removed: `if cond {` -> `if false && cond {`
+            m = re.match(r"(\s*(?:} else )?if )(.+)( \{\s*)$", code)
+            if m and " let " not in m.group(2) and not m.group(2).startswith("let ") and i + 1 < len(lines) and "return Err" in "".join(lines[i + 1:i + 4]):
+                add("guard off", m.group(1) + "false && (" + m.group(2) + ")" + m.group(3))
+            if ONLY_EXTRA:
+                del out[:0]
         # negated conditions
         m = re.match(r"(\s*(?:} else )?if )(.+)( \{\s*)$", code)
         if m and " let " not in m.group(2) and not m.group(2).startswith("let "):
@@ -235,6 +268,8 @@ def main():
             stride = int(args.pop(0))
         elif a == "--list":
             limit = -1
+        elif a == "--extra":
+            pass
     muts = []
     for f in files:
         muts += mutants_of(f, open(os.path.join("/repo", f)).read())
@@ -246,6 +281,8 @@ def main():
         if key not in seen:
             seen.add(key)
             uniq.append(m)
+    if EXTRA:
+        uniq = [m for m in uniq if m["kind"].split(" ")[0] in ("ident", "err", "giveback", "swap", "guard")]
     muts = uniq[offset::stride]
     if limit == -1:
         for m in muts:
